@@ -412,15 +412,13 @@ def durable_execution(
                 logger.exception("Invocation error. Must terminate.")
                 # Throw the error to trigger Lambda retry
                 raise
-            except ExecutionError as e:
-                logger.exception("Execution error. Must terminate without retry.")
-                return DurableExecutionInvocationOutput(
-                    status=InvocationStatus.FAILED,
-                    error=ErrorObject.from_exception(e),
-                ).to_dict()
             except Exception as e:
-                # all user-space errors go here
-                logger.exception("Execution failed")
+                # all user-space errors go here, and ExecutionError (terminate without retry):
+                # both are answered with FAILED, subject to the same response size limit
+                if isinstance(e, ExecutionError):
+                    logger.exception("Execution error. Must terminate without retry.")
+                else:
+                    logger.exception("Execution failed")
 
                 result = DurableExecutionInvocationOutput(
                     status=InvocationStatus.FAILED, error=ErrorObject.from_exception(e)
